@@ -41,12 +41,19 @@ def conditions(func, tier, carve, replace_modes=(True,), merge_modes=(False,), t
     return conds
 
 
-def annotate_real(text, style, multi, replace=True, merge=False):
+def annotate_real(text, style, multi, replace=True, merge=False, request="full"):
     import reuse.comment as cm
     from reuse import ReuseInfo, _LICENSING
     from reuse.header import add_new_header, find_and_replace_header
 
-    info = ReuseInfo(spdx_expressions={_LICENSING.parse("GPL-3.0-or-later")}, copyright_lines={"SPDX-FileCopyrightText: 2020 Jane Doe"}, contributor_lines={"Alice Example"})
+    kw = {}
+    if request in ("full", "licence-only"):
+        kw["spdx_expressions"] = {_LICENSING.parse("GPL-3.0-or-later")}
+    if request in ("full", "copyright-only"):
+        kw["copyright_lines"] = {"SPDX-FileCopyrightText: 2020 Jane Doe"}
+    if request in ("full", "contributor-only"):
+        kw["contributor_lines"] = {"Alice Example"}
+    info = ReuseInfo(**kw)
     f = find_and_replace_header if replace else add_new_header
     return f(text, info, style=getattr(cm, style), force_multi=multi, merge_copyrights=merge)
 
